@@ -286,7 +286,7 @@ class C09(Check):
         ds = [DS.D_RECORDS, DS.D_TREE, DS.D_GENERIC, DS.D_COMB, DS.D_ZOO, DS.MUT_DESIGN]
         if q: ds = [ds[self.seed % 6], ds[(self.seed + 2) % 6]]
         ds = ds + [DS.D_MULTI]
-        ps = [Rename('rename at an occurrence, edits applied, project re-analysed', ds, stride=6 if q else 1, offset=self.seed // 6 if q else 0,
+        ps = [Rename('rename at an occurrence, edits applied, project re-analysed', ds, stride=9 if q else 1, offset=self.seed // 6 if q else 0,
                      required=('compared', 'three or more occurrences') + (() if q else ('occurrences in two files', 'operator symbol or character literal refused')))]
         self._parts = ps
         return ps
